@@ -41,7 +41,7 @@ def cfg_hook(rng, cfg, fam, i):
 
 def gen_cases(tier, seed):
     fams = ["stripe-stress", "buffer-stress", "lut-stress", "alias-stress", "exact-chain", "exact-dag", "cpu-mix", "approx-tail", "exact-chain-big", "stripe-stress", "buffer-stress", "lut-stress", "stripe-resize", "shared-weights", "buffer-stress", "mixed-width", "cpu-mix"]
-    return campaign.gen_cases(tier, seed, 3, 420, 12000, families=fams, cfg_hook=cfg_hook, extra=[("shape-ops", 24, 500), ("approx-tail2", 12, 300)])
+    return campaign.gen_cases(tier, seed, 3, 420, 12000, families=fams, cfg_hook=cfg_hook, extra=[("shape-ops", 24, 500), ("approx-tail2", 12, 300), ("grouped-conv", 8, 200)])
 
 
 def interval(off, size):
